@@ -64,6 +64,18 @@ def cases(tier, rng):
             ops += ["wire " + c for c in names]
             out.append("p%d.%s.%s sock %s / %s" % (k, slow, mode.split("=")[0], sock, " / ".join(ops)))
             k += 1
+    # a stalled subscriber whose buffer is at the high-water mark sends another subscription: the publisher's reader task
+    # must not get stuck on that connection, the next publish returns promptly and reaches the healthy subscriber
+    for sock in ("PUB", "XPUB"):
+        for extra in ([b"\x01A"], [b"\x00"], [b"\x01A"] * 3):
+            ops = ["attach a SUB", "attach b SUB", "feed a " + W.tok(W.msg([b"\x01"])), "feed b " + W.tok(W.msg([b"\x01"]))]
+            ops += ["settle"] if sock == "PUB" else ["recv"] * 3
+            ops += ["wmode a stall", "send r70000.30", "send r70000.31", "send r70000.32"]
+            ops += ["feed a " + W.tok(b"".join(W.msg([e]) for e in extra))]
+            ops += ["settle"] if sock == "PUB" else ["recv"] * (len(extra) + 1)
+            ops += ["send r10.33", "send r10.34", "wire a", "wire b"]
+            out.append("p%d.a.stall sock %s / %s" % (k, sock, " / ".join(ops)))
+            k += 1
     return out
 
 
